@@ -76,6 +76,11 @@ func Generic(name string, seed int) float64 {
 	}
 	h ^= h >> 29
 	v := float64(h%6145)/1024 - 3
+	if seed >= 1000000 {
+		// tiny-magnitude stream: the same lattice shrunk to [-3e-9, 3e-9] (absolute thresholds and
+		// "rounding noise" floors show up only at small magnitudes)
+		return v * 1e-9
+	}
 	if seed < 0 {
 		// extreme-position stream: the same lattice stretched to [-700, 700] (overflow / underflow /
 		// cancellation show up only at large magnitudes)
